@@ -218,6 +218,9 @@ Step ==
             /\ bad' = bad \o BadOf(l, EndWhys(cell), 1)
             /\ stats' = [stats EXCEPT !.decided = @ + (IF Decidable(cell) /\ DOMAIN acc # {} THEN 1 ELSE 0)]
             /\ cell' = NoCell /\ info' = NoCell /\ acc' = <<>> /\ failW' = 0 /\ cutW' = 0 /\ totW' = 0 /\ nleaf' = 0
+       [] e.op = "hang" ->   \* a call of a history did not return although the same call returned at once before an earlier call failed
+            /\ bad' = bad \o <<Bad(l, "P:C15:a-call-made-after-an-earlier-call-failed-never-returns")>>
+            /\ UNCHANGED <<cell, info, acc, failW, cutW, totW, nleaf, stats>>
        [] OTHER -> /\ bad' = bad \o <<Bad(l, "H:unknown-op")>>
                    /\ UNCHANGED <<cell, info, acc, failW, cutW, totW, nleaf, stats>>
   /\ l' = l + 1 /\ UNCHANGED done
